@@ -376,7 +376,20 @@ func (s *c11State) step(r *gen.R) {
 	say := func(f string, a ...interface{}) { s.log = append(s.log, fmt.Sprintf(f, a...)) }
 	period := func() int { return r.Range(1, 3) }
 	s.dest = nil
-	switch r.Intn(29) {
+	switch r.Intn(30) {
+	case 29:
+		// a row made by the table itself (AppendNewRow) and filled afterwards: it is in the table from the start
+		h := t.AppendNewRow()
+		row := &c11Row{h: h, src: s.newSrc(), attached: true}
+		s.rows = append(s.rows, row)
+		s.dest = row
+		k := r.Range(1, 3)
+		say("t.AppendNewRow() + %d x Add(cell)", k)
+		for ; k > 0; k-- {
+			h.Add(tabular.NewCell("appended"))
+		}
+		s.dest = nil
+		s.c.Rec.Count("rows_made_by_AppendNewRow_and_filled_afterwards", 1)
 	case 28:
 		// many at once: a row that is still being put together (or the table) gets 11-30 errors in one go - more than
 		// any initial capacity, and more than what the table holds so far
